@@ -106,6 +106,21 @@ preserving('AG2-reordered-terms', ['C15'], edit=[(M + 'group/_lie.py', "        
 breaking('AG4-su2-sign-convention', {'C15': 'AG4'}, edit=[(M + 'group/_lie.py', "cb*exp_apg.conj(), -sb*exp_amg.conj(), sb*exp_amg, cb*exp_apg", "cb*exp_apg.conj(), sb*exp_amg.conj(), -sb*exp_amg, cb*exp_apg")])
 breaking('AG4-su2-not-unitary-form', {'C15': 'AG4'}, edit=[(M + 'group/_lie.py', "cb*exp_apg.conj(), -sb*exp_amg.conj(), sb*exp_amg, cb*exp_apg", "cb*exp_apg.conj(), -sb*exp_amg.conj(), sb*exp_amg.conj(), cb*exp_apg")])
 breaking('AG4-swapped-phases', {'C15': 'AG4'}, edit=[(M + 'group/_lie.py', "cb*exp_apg.conj(), -sb*exp_amg.conj(), sb*exp_amg, cb*exp_apg", "cb*exp_apg, -sb*exp_amg, sb*exp_amg.conj(), cb*exp_apg.conj()")])
+breaking('PJ1-conj-on-ket', {'C18': 'PJ1'}, edit=[(M + 'entangle/upb.py', "ret = np.eye(upb.shape[1]) - upb.T @ upb.conj()", "ret = np.eye(upb.shape[1]) - upb.conj().T @ upb")])
+breaking('DT1-int-buffer', {'C18': 'DT1'}, edit=[(M + 'state/_internal.py', "    coeff = coeff / np.linalg.norm(coeff)\n    N0 = coeff.shape[0]\n    ret = np.zeros(2**N0, dtype=coeff.dtype)\n    ret[2**np.arange(N0)] = coeff", "    coeff = np.asarray(coeff)\n    N0 = coeff.shape[0]\n    ret = np.zeros(2**N0, dtype=coeff.dtype)\n    ret[2**np.arange(N0)] = coeff / np.linalg.norm(coeff)")])
+breaking('O3-cached-constructor', {'C18': 'O3', 'C17': 'O3'}, edit=[(M + 'dicke.py', "def Dicke(*klist:tuple[int]):", "@functools.lru_cache\ndef Dicke(*klist:tuple[int]):"), (M + 'dicke.py', "import itertools\n", "import functools\nimport itertools\n")])
+breaking('PT1-hermitised', {'C17': 'PT1'}, edit=[(M + 'utils.py', "    ret = np.einsum(rho, tmp0+tmp1, tmp3, optimize=True).reshape(N1, N1)\n    return ret", "    ret = np.einsum(rho, tmp0+tmp1, tmp3, optimize=True).reshape(N1, N1)\n    ret = (ret + ret.T.conj())/2\n    return ret")])
+breaking('SP5-inplace-transvection', {'C09': 'SP5'}, edit=[(M + 'group/spf2.py', "        x = (x + tmp0*h)%2", "        x ^= tmp0*h")])
+breaking('SP1-numpy-prod', {'C09': 'SP1'}, edit=[(M + 'group/spf2.py', "        ret = 1\n        for x in tmp0:\n            ret = ret * (x-1) * (x>>1)", "        ret = int(np.prod([(x-1)*(x>>1) for x in tmp0]))")])
+preserving('DT1-cast-first', ['C18'], edit=[(M + 'state/_internal.py', "    coeff = coeff / np.linalg.norm(coeff)\n    N0 = coeff.shape[0]", "    coeff = np.asarray(coeff).astype(np.float64)\n    coeff = coeff / np.linalg.norm(coeff)\n    N0 = coeff.shape[0]")])
+breaking('G5-conj-basis-only', {'C20': 'G5'}, edit=[(M + 'matrix_space/_misc.py', "ret = tmp0.reshape(-1,N1,N2), tmp1.reshape(-1,N1,N2), 'C'", "ret = tmp0.conj().reshape(-1,N1,N2), tmp1.reshape(-1,N1,N2), 'C'")])
+breaking('SH3-swapped-shape-unpack', {'C20': 'SH3'}, edit=[(M + 'matrix_space/_numerical_range.py', "    dimA = matrix_subspace.shape[1]\n    dimB = matrix_subspace.shape[2]\n    basis = get_matrix_orthogonal_basis", "    dimB,dimA = matrix_subspace.shape[-2:]\n    basis = get_matrix_orthogonal_basis")])
+breaking('W5-regularised-gram', {'C01': 'W5', 'C13': 'W5'}, edit=[(M + 'manifold/_stiefel.py', "            tmp0 = torch.linalg.inv(numqi._torch_op.PSDMatrixSqrtm.apply(mat.transpose(1,2).conj() @ mat))", "            tmp0 = mat.transpose(1,2).conj() @ mat + torch.finfo(theta.dtype).eps*torch.eye(rank, dtype=mat.dtype, device=mat.device)\n            tmp0 = torch.linalg.inv(numqi._torch_op.PSDMatrixSqrtm.apply(tmp0))")])
+breaking('V2-early-return', {'C13': 'V2'}, edit=[(M + 'entangle/eof.py', "        self._sqrt_rho = torch.tensor(tmp0, dtype=self.cdtype)\n        tmp0 = self._sqrt_rho.conj().resolve_conj()\n        if self.dimA<=self.dimB:\n            self.contract_expr = opt_einsum.contract_expression(self._sqrt_rho, [0,3,4], tmp0, [1,3,5],\n                                [self.num_term,self.rank], [2,4], [self.num_term,self.rank], [2,5], [2,0,1], constants=[0,1])\n        else:\n            self.contract_expr = opt_einsum.contract_expression(self._sqrt_rho, [3,0,4], tmp0, [3,1,5],\n                                [self.num_term,self.rank], [2,4], [self.num_term,self.rank], [2,5], [2,0,1], constants=[0,1])\n        tmp0 = min(", "        self._sqrt_rho = torch.tensor(tmp0, dtype=self.cdtype)\n        if self.contract_expr1 is not None:\n            return\n        tmp0 = self._sqrt_rho.conj().resolve_conj()\n        if self.dimA<=self.dimB:\n            self.contract_expr = opt_einsum.contract_expression(self._sqrt_rho, [0,3,4], tmp0, [1,3,5],\n                                [self.num_term,self.rank], [2,4], [self.num_term,self.rank], [2,5], [2,0,1], constants=[0,1])\n        else:\n            self.contract_expr = opt_einsum.contract_expression(self._sqrt_rho, [3,0,4], tmp0, [3,1,5],\n                                [self.num_term,self.rank], [2,4], [self.num_term,self.rank], [2,5], [2,0,1], constants=[0,1])\n        tmp0 = min(")])
+breaking('N2-norm-without-axis', {'C06': 'N2'}, edit=[(M + 'gellmann.py', "ret = np.linalg.norm((dm - tmp0).reshape(-1,N0*N0), ord=2, axis=1)/np.sqrt(2)", "ret = np.linalg.norm((dm - tmp0).reshape(-1,N0*N0), ord=2)/np.sqrt(2)")])
+breaking('AR1-swapped-dims', {'C06': 'AR1'}, edit=[(M + 'entangle/cha.py', "numqi.manifold.SeparableDensityMatrix(dim0, dim1, num_state, dtype=torch.complex128)", "numqi.manifold.SeparableDensityMatrix(dim1, dim0, num_state, dtype=torch.complex128)")])
+breaking('ST1-derived-before-append', {'C18': 'ST1'}, edit=[(M + 'unique_determine/_internal.py', "    basis_list = [basis0,basis1,basis2,basis3]\n", "    basis_list = [basis0,basis1,basis2,basis3]\n    tmp0 = np.concatenate(basis_list, axis=0)\n"), (M + 'unique_determine/_internal.py', "\n    tmp0 = np.concatenate(basis_list, axis=0)\n    ret = tmp0[:,:,np.newaxis]", "\n    ret = tmp0[:,:,np.newaxis]")])
+breaking('PT3-early-shortcut', {'C17': 'PT3'}, edit=[(M + 'dicke.py', "    ret = []\n    state_conj = state.conj()\n", "    if dimBk==dimB:\n        tmp0 = state.reshape(-1)\n        return tmp0.reshape(-1,1) * tmp0.conj()\n    ret = []\n    state_conj = state.conj()\n")])
 breaking('refix-get_gme_2qubit', {'C13': 'F2', 'C05': 'F2'}, patch_reverse='fix_78cd862.diff')
 
 # ---- textual breaking edits, one per rule family
